@@ -2,5 +2,686 @@ From TU Require Import Base C11_Model.
 From Coq Require Import Lia.
 Open Scope N_scope.
 
-Lemma remove_def seg : remove seg = concat (strip_cl seg).
+(** * A. maximal runs: facts that determine [wordsP] *)
+Section WordsP.
+  Context {A : Type} (ws : A -> bool).
+  Let nws := fun x => negb (ws x).
+
+  Definition wordok (w : list A) : Prop := w <> [] /\ forallb nws w = true.
+
+  Lemma wordsP_head_nonempty l : head_is nws l = true -> wordsP ws l <> [].
+  Proof.
+    destruct l as [|c r]; cbn; [discriminate|]. unfold nws. intros H.
+    destruct (ws c); [discriminate|]. unfold attach.
+    destruct (head_is _ r); [destruct (wordsP ws r)|]; discriminate.
+  Qed.
+
+  Lemma wordsP_app_ws g x : forallb ws g = true -> wordsP ws (g ++ x) = wordsP ws x.
+  Proof.
+    induction g as [|c g IH]; cbn; [reflexivity|]. intros H.
+    apply andb_true_iff in H as [H1 H2]. rewrite H1. auto.
+  Qed.
+
+  Lemma wordsP_allws g : forallb ws g = true -> wordsP ws g = [].
+  Proof. intros H. rewrite <- (app_nil_r g). rewrite wordsP_app_ws; auto. Qed.
+
+  (** a non-empty whitespace-free run in front of [x] *)
+  Lemma wordsP_app_word w x :
+    w <> [] -> forallb nws w = true ->
+    wordsP ws (w ++ x) =
+      if head_is nws x
+      then match wordsP ws x with y :: rest => (w ++ y) :: rest | [] => [w] end
+      else w :: wordsP ws x.
+  Proof.
+    induction w as [|c w IH]; [congruence|]. intros _ H. cbn in H.
+    apply andb_true_iff in H as [Hc Hw]. unfold nws in Hc. apply negb_true_iff in Hc.
+    cbn [app wordsP]. rewrite Hc.
+    destruct w as [|d w].
+    - cbn [app]. unfold attach. destruct (head_is _ x); reflexivity.
+    - rewrite IH; [|discriminate|exact Hw].
+      cbn [app head_is]. cbn in Hw. apply andb_true_iff in Hw as [Hd _]. unfold nws in Hd. rewrite Hd.
+      unfold attach. destruct (head_is nws x).
+      + destruct (wordsP ws x); reflexivity.
+      + reflexivity.
+  Qed.
+
+  Lemma wordsP_word w : w <> [] -> forallb nws w = true -> wordsP ws w = [w].
+  Proof.
+    intros H1 H2. rewrite <- (app_nil_r w) at 1. rewrite wordsP_app_word by assumption. reflexivity.
+  Qed.
+
+  Lemma wordsP_word_ws w c x :
+    w <> [] -> forallb nws w = true -> ws c = true -> wordsP ws (w ++ c :: x) = w :: wordsP ws x.
+  Proof.
+    intros H1 H2 Hc. rewrite wordsP_app_word by assumption. cbn [head_is wordsP]. unfold nws at 1.
+    rewrite Hc. reflexivity.
+  Qed.
+
+  Lemma attach_app (c : A) opn (W1 W2 : list (list A)) :
+    (opn = true -> W1 <> []) -> attach c opn (W1 ++ W2) = attach c opn W1 ++ W2.
+  Proof.
+    unfold attach. destruct opn; [|reflexivity]. intros H. destruct W1; [exfalso; apply (H eq_refl); reflexivity|reflexivity].
+  Qed.
+
+  (** splitting at a whitespace element splits the words *)
+  Lemma wordsP_split a c b : ws c = true -> wordsP ws (a ++ c :: b) = wordsP ws a ++ wordsP ws b.
+  Proof.
+    intros Hc. induction a as [|x a IH]; cbn [app wordsP].
+    - rewrite Hc. reflexivity.
+    - destruct (ws x); [exact IH|]. rewrite IH. fold nws.
+      assert (E : head_is nws (a ++ c :: b) = head_is nws a).
+      { destruct a; cbn; [unfold nws; rewrite Hc; reflexivity|reflexivity]. }
+      rewrite E. apply attach_app. apply wordsP_head_nonempty.
+  Qed.
+
+  Lemma wordsP_ok l : Forall wordok (wordsP ws l).
+  Proof.
+    induction l as [|c r IH]; cbn [wordsP]; [constructor|].
+    destruct (ws c) eqn:Ec; [exact IH|]. unfold attach.
+    assert (Hc : nws c = true) by (unfold nws; rewrite Ec; reflexivity).
+    destruct (head_is _ r).
+    - destruct (wordsP ws r) as [|y rest].
+      + constructor; [|constructor]. split; [discriminate|]. cbn. rewrite Hc. reflexivity.
+      + inversion IH as [|? ? [Hy1 Hy2] Hr]; subst. constructor; [|exact Hr].
+        split; [discriminate|]. cbn. rewrite Hc. exact Hy2.
+    - constructor; [|exact IH]. split; [discriminate|]. cbn. rewrite Hc. reflexivity.
+  Qed.
+End WordsP.
+
+(** * B. join *)
+Lemma join_cons {A} (sep w : list A) r : r <> [] -> join sep (w :: r) = w ++ sep ++ join sep r.
+Proof. destruct r; [congruence|reflexivity]. Qed.
+
+Lemma join_one {A} (sep w : list A) : join sep [w] = w.
 Proof. reflexivity. Qed.
+
+(** * C. clean on code points *)
+Fixpoint clean_cp (lw ne : bool) (s : str) : str :=
+  match s with
+  | [] => []
+  | c :: r => if is_ws c then clean_cp true ne r
+              else (if lw && ne then [32] else []) ++ c :: clean_cp false true r
+  end.
+
+Lemma head_ws_nonws (s : str) : head_is nonws_cp s = true -> head_is is_ws s = false.
+Proof. destruct s; cbn; [reflexivity|]. unfold nonws_cp. apply negb_true_iff. Qed.
+
+Lemma join_attach (c : cp) (r : str) :
+  join [32] (attach c (head_is nonws_cp r) (words r)) =
+  c :: match words r with
+       | [] => []
+       | _ :: _ => (if head_is is_ws r then [32] else []) ++ join [32] (words r)
+       end.
+Proof.
+  destruct r as [|d r']; [reflexivity|].
+  cbn [head_is]. unfold nonws_cp at 1. destruct (is_ws d) eqn:Ed; cbn [negb attach].
+  - destruct (words (d :: r')) eqn:Ew; [reflexivity|]. rewrite join_cons by discriminate. reflexivity.
+  - assert (Hne : wordsP is_ws (d :: r') <> []).
+    { apply wordsP_head_nonempty. cbn [head_is]. rewrite Ed. reflexivity. }
+    unfold words. destruct (wordsP is_ws (d :: r')) as [|x rest]; [congruence|].
+    cbn [app]. destruct rest; reflexivity.
+Qed.
+
+Lemma clean_cp_true s : forall lw,
+  clean_cp lw true s =
+  match words s with
+  | [] => []
+  | _ :: _ => (if lw || head_is is_ws s then [32] else []) ++ join [32] (words s)
+  end.
+Proof.
+  induction s as [|c r IH]; intros lw; [reflexivity|].
+  cbn [clean_cp]. unfold words in *. cbn [wordsP head_is]. destruct (is_ws c) eqn:Ec.
+  - rewrite IH. rewrite orb_true_r. reflexivity.
+  - rewrite IH. rewrite andb_true_r, orb_false_r. cbn [orb].
+    pose proof (join_attach c r) as J. unfold words, nonws_cp in J.
+    destruct (attach c _ (wordsP is_ws r)) eqn:Ea.
+    + exfalso. unfold attach in Ea. destruct (head_is _ r); [destruct (wordsP is_ws r)|]; discriminate.
+    + rewrite J. destruct lw; reflexivity.
+Qed.
+
+Lemma clean_cp_false s : forall lw, clean_cp lw false s = join [32] (words s).
+Proof.
+  induction s as [|c r IH]; intros lw; [reflexivity|].
+  cbn [clean_cp]. unfold words in *. cbn [wordsP]. destruct (is_ws c) eqn:Ec.
+  - apply IH.
+  - rewrite andb_false_r. cbn [app]. rewrite clean_cp_true.
+    pose proof (join_attach c r) as J. unfold words, nonws_cp in J. rewrite J. reflexivity.
+Qed.
+
+(** * D. from clusters to code points *)
+Lemma forallb_rev {A} (p : A -> bool) l : forallb p (rev l) = forallb p l.
+Proof.
+  induction l as [|x l IH]; cbn [rev forallb]; [reflexivity|].
+  rewrite forallb_app, IH. cbn [forallb]. rewrite andb_true_r. apply andb_comm.
+Qed.
+
+Lemma dropws_nonws s : forallb nonws_cp s = true -> dropws s = s.
+Proof.
+  destruct s as [|c r]; [reflexivity|]. cbn [forallb dropws]. unfold nonws_cp at 1. intros H.
+  apply andb_true_iff in H as [H _]. apply negb_true_iff in H. rewrite H. reflexivity.
+Qed.
+
+Lemma trim_nonws c : forallb nonws_cp c = true -> trim c = c.
+Proof.
+  intros H. unfold trim. rewrite (dropws_nonws c H).
+  rewrite dropws_nonws by (rewrite forallb_rev; exact H). apply rev_involutive.
+Qed.
+
+Lemma clean_cp_app_ws g x ne : forall lw,
+  g <> [] -> forallb is_ws g = true -> clean_cp lw ne (g ++ x) = clean_cp true ne x.
+Proof.
+  induction g as [|c g IH]; intros lw Hne H; [congruence|].
+  cbn [forallb] in H. apply andb_true_iff in H as [Hc Hg]. cbn [app clean_cp]. rewrite Hc.
+  destruct g as [|d g]; [reflexivity|]. apply IH; [discriminate|exact Hg].
+Qed.
+
+Lemma clean_cp_app_word w x : forall lw ne,
+  w <> [] -> forallb nonws_cp w = true ->
+  clean_cp lw ne (w ++ x) = (if lw && ne then [32] else []) ++ w ++ clean_cp false true x.
+Proof.
+  induction w as [|c w IH]; intros lw ne Hne H; [congruence|].
+  cbn [forallb] in H. apply andb_true_iff in H as [Hc Hw]. unfold nonws_cp in Hc.
+  apply negb_true_iff in Hc. cbn [app clean_cp]. rewrite Hc.
+  destruct w as [|d w]; [reflexivity|].
+  rewrite IH; [|discriminate|exact Hw]. cbn [andb app]. reflexivity.
+Qed.
+
+Lemma wf_seg_cons c r :
+  wf_seg (c :: r) = true ->
+  c <> [] /\ (cl_ws c = true \/ (cl_ws c = false /\ forallb nonws_cp c = true)) /\ wf_seg r = true.
+Proof.
+  unfold wf_seg. cbn [forallb]. intros H. apply andb_true_iff in H as [H1 H2].
+  apply andb_true_iff in H1 as [Hn Hm]. split.
+  { destruct c; [cbn in Hn; discriminate|discriminate]. }
+  split; [|exact H2]. unfold nomixed_cl in Hm.
+  destruct (cl_ws c); [left; reflexivity|right; split; [reflexivity|exact Hm]].
+Qed.
+
+Lemma clean_aux_cp seg : forall lw ne,
+  wf_seg seg = true -> clean_aux lw ne seg = clean_cp lw ne (concat seg).
+Proof.
+  induction seg as [|c r IH]; intros lw ne H; [reflexivity|].
+  apply wf_seg_cons in H as (Hne & Hm & Hr). cbn [clean_aux concat].
+  destruct Hm as [Hw|[Hw Hn]]; rewrite Hw.
+  - unfold cl_ws in Hw. rewrite clean_cp_app_ws by assumption. apply IH; exact Hr.
+  - cbv zeta. rewrite (trim_nonws c Hn).
+    assert (Hnil : is_nil c = false) by (destruct c; [congruence|reflexivity]).
+    rewrite Hnil. cbn [negb]. rewrite orb_true_r.
+    rewrite clean_cp_app_word by assumption. rewrite IH by exact Hr. reflexivity.
+Qed.
+
+Lemma clean_spec_seg seg : wf_seg seg = true -> clean seg = join [32] (words (concat seg)).
+Proof. intros H. unfold clean. rewrite clean_aux_cp by exact H. apply clean_cp_false. Qed.
+
+Lemma concat_singletons (s : str) : concat (singletons s) = s.
+Proof. induction s as [|c r IH]; cbn [singletons map concat app]; [reflexivity|]. f_equal. exact IH. Qed.
+
+Lemma wf_singletons (s : str) : wf_seg (singletons s) = true.
+Proof.
+  unfold wf_seg, singletons. induction s as [|c r IH]; cbn [map forallb]; [reflexivity|].
+  rewrite IH, andb_true_r. unfold nomixed_cl, cl_ws, nonws_cp. cbn [forallb is_nil negb andb].
+  rewrite !andb_true_r. destruct (is_ws c); reflexivity.
+Qed.
+
+Lemma clean_spec_cp s : clean (singletons s) = join [32] (words s).
+Proof. rewrite clean_spec_seg by apply wf_singletons. rewrite concat_singletons. reflexivity. Qed.
+
+(** * E. the result is whitespace-clean *)
+Definition cwordok (w : str) : Prop := w <> [] /\ forallb nonws_cp w = true.
+
+Lemma words_ok s : Forall cwordok (words s).
+Proof. exact (wordsP_ok is_ws s). Qed.
+
+Lemma scs_app_word w y : forallb nonws_cp w = true -> scs (w ++ y) = scs y.
+Proof.
+  induction w as [|c w IH]; [reflexivity|]. cbn [forallb app scs]. intros H.
+  apply andb_true_iff in H as [Hc Hw]. unfold nonws_cp in Hc. apply negb_true_iff in Hc.
+  rewrite Hc. cbn [andb]. auto.
+Qed.
+
+Lemma head_app_word w y : w <> [] -> forallb nonws_cp w = true -> head_is nonws_cp (w ++ y) = true.
+Proof.
+  destruct w as [|c w]; [congruence|]. intros _ H. cbn [forallb] in H.
+  apply andb_true_iff in H as [Hc _]. exact Hc.
+Qed.
+
+Lemma ws32 : is_ws 32 = true.
+Proof. reflexivity. Qed.
+
+Lemma scs_join W :
+  Forall cwordok W ->
+  scs (join [32] W) = true /\ (W <> [] -> head_is nonws_cp (join [32] W) = true).
+Proof.
+  induction W as [|w r IH]; intros H; [split; [reflexivity|congruence]|].
+  inversion H as [|? ? [Hw1 Hw2] Hr]; subst. destruct (IH Hr) as [IH1 IH2].
+  destruct r as [|w' r'].
+  - cbn [join]. split.
+    + rewrite <- (app_nil_r w). rewrite scs_app_word by exact Hw2. reflexivity.
+    + intros _. rewrite <- (app_nil_r w). apply head_app_word; assumption.
+  - unfold str, cp in *. rewrite join_cons by discriminate. split.
+    + rewrite scs_app_word by exact Hw2. cbn [app scs]. rewrite ws32. unfold str, cp in *.
+      rewrite IH1, IH2 by discriminate. reflexivity.
+    + intros _. apply head_app_word; assumption.
+Qed.
+
+Lemma cleansb_join W : Forall cwordok W -> cleansb (join [32] W) = true.
+Proof.
+  intros H. destruct (scs_join W H) as [H1 H2]. unfold cleansb. rewrite H1, andb_true_r.
+  destruct W as [|w r]; [reflexivity|]. rewrite head_ws_nonws; [reflexivity|].
+  apply H2. discriminate.
+Qed.
+
+Lemma clean_clean_seg seg : wf_seg seg = true -> cleansb (clean seg) = true.
+Proof. intros H. rewrite clean_spec_seg by exact H. apply cleansb_join, words_ok. Qed.
+
+(** * F. idempotence *)
+Lemma words_join W : Forall cwordok W -> words (join [32] W) = W.
+Proof.
+  induction W as [|w r IH]; intros H; [reflexivity|].
+  inversion H as [|? ? [Hw1 Hw2] Hr]; subst. destruct r as [|w' r'].
+  - cbn [join]. apply (wordsP_word is_ws); assumption.
+  - unfold str, cp in *. rewrite join_cons by discriminate. cbn [app]. unfold words.
+    rewrite (wordsP_word_ws is_ws) by (assumption || reflexivity).
+    f_equal. apply IH. exact Hr.
+Qed.
+
+Lemma clean_idem_seg seg seg' :
+  wf_seg seg = true -> concat seg' = clean seg -> wf_seg seg' = true -> clean seg' = clean seg.
+Proof.
+  intros H Hc H'. rewrite (clean_spec_seg seg') by exact H'. rewrite Hc.
+  rewrite (clean_spec_seg seg) by exact H. rewrite words_join by apply words_ok. reflexivity.
+Qed.
+
+Lemma clean_idem_cp s : clean (singletons (clean (singletons s))) = clean (singletons s).
+Proof.
+  apply clean_idem_seg; [apply wf_singletons|apply concat_singletons|apply wf_singletons].
+Qed.
+
+(** * G. the non-whitespace code points survive, in order (every segmentation) *)
+Lemma strip_cps_app a b : strip_cps (a ++ b) = strip_cps a ++ strip_cps b.
+Proof. apply filter_app. Qed.
+
+Lemma strip_dropws s : strip_cps (dropws s) = strip_cps s.
+Proof.
+  induction s as [|c r IH]; [reflexivity|]. cbn [dropws]. destruct (is_ws c) eqn:E; [|reflexivity].
+  rewrite IH. unfold strip_cps. cbn [filter]. unfold nonws_cp at 2. rewrite E. reflexivity.
+Qed.
+
+Lemma strip_rev s : strip_cps (rev s) = rev (strip_cps s).
+Proof.
+  induction s as [|c r IH]; [reflexivity|]. cbn [rev]. rewrite strip_cps_app, IH.
+  unfold strip_cps. cbn [filter]. destruct (nonws_cp c); cbn [rev app]; [reflexivity|apply app_nil_r].
+Qed.
+
+Lemma strip_trim c : strip_cps (trim c) = strip_cps c.
+Proof. unfold trim. rewrite strip_rev, strip_dropws, strip_rev, strip_dropws. apply rev_involutive. Qed.
+
+Lemma strip_ws_cluster c : cl_ws c = true -> strip_cps c = [].
+Proof.
+  unfold cl_ws, strip_cps. induction c as [|x c IH]; [reflexivity|]. cbn [forallb filter].
+  intros H. apply andb_true_iff in H as [H1 H2]. unfold nonws_cp at 1. rewrite H1. cbn [negb]. auto.
+Qed.
+
+Lemma clean_aux_nonws seg : forall lw ne, strip_cps (clean_aux lw ne seg) = strip_cps (concat seg).
+Proof.
+  induction seg as [|c r IH]; intros lw ne; [reflexivity|]. cbn [clean_aux concat].
+  rewrite (strip_cps_app c). destruct (cl_ws c) eqn:E.
+  - rewrite IH, (strip_ws_cluster c E). reflexivity.
+  - cbv zeta. rewrite !strip_cps_app, strip_trim, IH.
+    destruct (lw && ne)%bool; reflexivity.
+Qed.
+
+Lemma clean_nonws_seg seg : strip_cps (clean seg) = strip_cps (concat seg).
+Proof. apply clean_aux_nonws. Qed.
+
+(** * H. word boundaries *)
+Lemma firstn_exact {A} (a b : list A) : firstn (length a) (a ++ b) = a.
+Proof. induction a as [|x a IH]; cbn [length firstn app]; [destruct b; reflexivity|]. f_equal. exact IH. Qed.
+
+Lemma skipn_exact {A} (a b : list A) : skipn (length a) (a ++ b) = b.
+Proof. induction a as [|x a IH]; cbn [length skipn app]; [reflexivity|exact IH]. Qed.
+
+Lemma skipn_skipn {A} (x y : nat) (l : list A) : skipn x (skipn y l) = skipn (x + y) l.
+Proof.
+  revert l. induction y as [|y IH]; intros l.
+  - rewrite Nat.add_0_r. reflexivity.
+  - rewrite Nat.add_succ_r. destruct l as [|a l]; cbn [skipn]; [apply skipn_nil|apply IH].
+Qed.
+
+Definition st_of (lo : nat) (g w : list cluster) : option nat :=
+  match w with [] => None | _ :: _ => Some (lo + length g)%nat end.
+
+Lemma tile_cons_ok lo g w rest wbs :
+  forallb cl_ws g = true -> forallb nonws_cl w = true -> w <> [] ->
+  head_is nonws_cl rest = false ->
+  tile (lo + length g + length w) rest wbs = true ->
+  tile lo (g ++ w ++ rest) ((lo + length g, lo + length g + length w)%nat :: wbs) = true.
+Proof.
+  intros Hg Hw Hne Hh Ht. cbn [tile].
+  assert (Hlw : (0 < length w)%nat) by (destruct w; [congruence|cbn [length]; lia]).
+  replace (lo + length g - lo)%nat with (length g) by lia.
+  replace (lo + length g + length w - (lo + length g))%nat with (length w) by lia.
+  replace (lo + length g + length w - lo)%nat with (length (g ++ w)) by (rewrite app_length; lia).
+  rewrite firstn_exact, skipn_exact, firstn_exact.
+  rewrite (app_assoc g w rest), skipn_exact. rewrite Hg, Hw, Hh, Ht.
+  rewrite !app_length.
+  assert (E1 : Nat.leb lo (lo + length g) = true) by (apply Nat.leb_le; lia).
+  assert (E2 : Nat.ltb (lo + length g) (lo + length g + length w) = true) by (apply Nat.ltb_lt; lia).
+  assert (E3 : Nat.leb (length g + length w) (length g + length w + length rest) = true) by (apply Nat.leb_le; lia).
+  rewrite E1, E2, E3. reflexivity.
+Qed.
+
+Lemma tile_wb chars : forall lo g w,
+  forallb cl_ws g = true -> forallb nonws_cl w = true ->
+  tile lo (g ++ w ++ chars) (wb_aux (lo + length g + length w) (st_of lo g w) chars) = true.
+Proof.
+  induction chars as [|c r IH]; intros lo g w Hg Hw.
+  - destruct w as [|d w'].
+    + cbn [st_of wb_aux tile app]. rewrite app_nil_r. exact Hg.
+    + cbn [st_of wb_aux].
+      assert (E : Nat.ltb (lo + length g) (lo + length g + length (d :: w')) = true)
+        by (apply Nat.ltb_lt; cbn [length]; lia).
+      rewrite E. apply tile_cons_ok; try assumption; [discriminate|reflexivity|reflexivity].
+  - cbn [wb_aux]. destruct (cl_ws c) eqn:Hc.
+    + destruct w as [|d w'].
+      * cbn [st_of].
+        specialize (IH lo (g ++ [c]) [] ).
+        rewrite forallb_app in IH. cbn [forallb] in IH. rewrite Hg, Hc in IH.
+        specialize (IH eq_refl eq_refl). cbn [st_of] in IH.
+        rewrite app_length in IH. cbn [length app] in IH. cbn [app length].
+        rewrite <- app_assoc in IH. cbn [app] in IH.
+        replace (S (lo + length g + 0)) with (lo + (length g + 1) + 0)%nat by lia. exact IH.
+      * cbn [st_of]. apply tile_cons_ok; try assumption; [discriminate| |].
+        { cbn [head_is]. unfold nonws_cl. rewrite Hc. reflexivity. }
+        specialize (IH (lo + length g + length (d :: w'))%nat [c] []).
+        cbn [forallb] in IH. rewrite Hc in IH. specialize (IH eq_refl eq_refl).
+        cbn [st_of app length] in IH. cbn [length].
+        replace (S (lo + length g + S (length w'))) with (lo + length g + S (length w') + 1 + 0)%nat by lia.
+        exact IH.
+    + assert (Hn : nonws_cl c = true) by (unfold nonws_cl; rewrite Hc; reflexivity).
+      destruct w as [|d w'].
+      * cbn [st_of]. specialize (IH lo g [c] Hg). cbn [forallb] in IH. rewrite Hn in IH.
+        specialize (IH eq_refl). cbn [st_of length app] in IH. cbn [app length].
+        replace (S (lo + length g + 0)) with (lo + length g + 1)%nat by lia.
+        replace (lo + length g + 0)%nat with (lo + length g)%nat by lia. exact IH.
+      * cbn [st_of]. specialize (IH lo g ((d :: w') ++ [c]) Hg).
+        rewrite forallb_app in IH. cbn [forallb] in IH. rewrite Hn in IH.
+        cbn [forallb] in Hw. rewrite Hw in IH. specialize (IH eq_refl).
+        cbn [st_of app length] in IH. rewrite app_length in IH. cbn [length] in IH.
+        rewrite <- app_assoc in IH. cbn [app] in IH. cbn [length app].
+        replace (S (lo + length g + S (length w'))) with (lo + length g + S (length w' + 1))%nat by lia.
+        exact IH.
+Qed.
+
+Lemma tile_model seg : tile 0 seg (word_boundaries seg) = true.
+Proof. exact (tile_wb seg 0%nat [] [] eq_refl eq_refl). Qed.
+
+(** any list of ranges accepted by [tile] is the list of word ranges *)
+Lemma tile_sound seg : forall wbs lo,
+  tile lo (skipn lo seg) wbs = true -> map (sub seg) wbs = words_cl (skipn lo seg).
+Proof.
+  induction wbs as [|[a b] wbs IH]; intros lo H; cbn [tile] in H.
+  - cbn [map]. symmetry. apply wordsP_allws. exact H.
+  - repeat (apply andb_true_iff in H; destruct H as [H ?]).
+    rename H0 into Ht, H1 into Hh, H2 into Hw, H3 into Hg, H4 into Hlen, H5 into Hab.
+    apply Nat.leb_le in H. apply Nat.ltb_lt in Hab. apply Nat.leb_le in Hlen.
+    apply negb_true_iff in Hh.
+    set (l := skipn lo seg) in *.
+    assert (Hsk : forall k, skipn k l = skipn (k + lo) seg) by (intros k; unfold l; apply skipn_skipn).
+    assert (Ea : skipn (a - lo) l = skipn a seg) by (rewrite Hsk; f_equal; lia).
+    assert (Eb : skipn (b - lo) l = skipn b seg) by (rewrite Hsk; f_equal; lia).
+    rewrite Ea in Hw. rewrite Eb in Hh, Ht.
+    cbn [map]. rewrite (IH b Ht). unfold sub at 1. cbn [fst snd].
+    (* decompose l = gap ++ word ++ rest *)
+    assert (Dl : l = firstn (a - lo) l ++ firstn (b - a) (skipn a seg) ++ skipn b seg).
+    { rewrite <- (firstn_skipn (a - lo) l) at 1. f_equal. rewrite Ea.
+      rewrite <- (firstn_skipn (b - a) (skipn a seg)) at 1. f_equal.
+      rewrite skipn_skipn. f_equal. lia. }
+    rewrite Dl at 1. unfold words_cl. rewrite wordsP_app_ws by exact Hg.
+    assert (Hne : firstn (b - a) (skipn a seg) <> []).
+    { intros E. apply (f_equal (@length _)) in E. rewrite firstn_length in E. cbn [length] in E.
+      assert (length (skipn a seg) = length seg - a)%nat by apply skipn_length.
+      assert (length l = length seg - lo)%nat by (unfold l; apply skipn_length). lia. }
+    rewrite (wordsP_app_word cl_ws) by assumption.
+    fold nonws_cl. change (fun x => negb (cl_ws x)) with nonws_cl. rewrite Hh. reflexivity.
+Qed.
+
+Lemma wb_words_cl seg : map (sub seg) (word_boundaries seg) = words_cl seg.
+Proof. exact (tile_sound seg (word_boundaries seg) 0%nat (tile_model seg)). Qed.
+
+(** ranges are in increasing order, separated, inside the text *)
+Fixpoint incr (lo : nat) (first : bool) (n : nat) (wbs : list (nat * nat)) : Prop :=
+  match wbs with
+  | [] => True
+  | (a, b) :: r => (if first then lo <= a else lo < a)%nat /\ (a < b)%nat /\ (b <= n)%nat /\ incr b false n r
+  end.
+
+Lemma tile_incr seg : forall wbs lo first,
+  (lo <= length seg)%nat ->
+  (first = false -> head_is nonws_cl (skipn lo seg) = false) ->
+  tile lo (skipn lo seg) wbs = true -> incr lo first (length seg) wbs.
+Proof.
+  induction wbs as [|[a b] wbs IH]; intros lo first Hlo Hf H; cbn [tile incr] in *; [exact Logic.I|].
+  repeat (apply andb_true_iff in H; destruct H as [H ?]).
+  rename H0 into Ht, H1 into Hh, H2 into Hw, H3 into Hg, H4 into Hlen, H5 into Hab.
+  apply Nat.leb_le in H. apply Nat.ltb_lt in Hab. apply Nat.leb_le in Hlen.
+  apply negb_true_iff in Hh. rewrite skipn_length in Hlen.
+  assert (Ea : skipn (a - lo) (skipn lo seg) = skipn a seg) by (rewrite skipn_skipn; f_equal; lia).
+  assert (Eb : skipn (b - lo) (skipn lo seg) = skipn b seg) by (rewrite skipn_skipn; f_equal; lia).
+  rewrite Ea in Hw. rewrite Eb in Hh, Ht.
+  split; [|split; [exact Hab|split; [lia|]]].
+  - destruct first; [exact H|]. specialize (Hf eq_refl).
+    destruct (Nat.eq_dec lo a) as [->|Hne]; [|lia]. exfalso.
+    destruct (skipn a seg) as [|x l] eqn:E.
+    + apply (f_equal (@length _)) in E. rewrite skipn_length in E. cbn [length] in E. lia.
+    + destruct (b - a)%nat eqn:Eba; [lia|]. cbn [firstn forallb head_is] in *.
+      apply andb_true_iff in Hw as [Hx _]. congruence.
+  - apply IH; [lia| |exact Ht]. intros _. exact Hh.
+Qed.
+
+Lemma wb_incr seg : incr 0 true (length seg) (word_boundaries seg).
+Proof. apply (tile_incr seg _ 0%nat true); [lia|discriminate|apply tile_model]. Qed.
+
+(** * I. cluster words vs code-point words; remove; full *)
+Lemma head_nonws_concat r :
+  wf_seg r = true -> head_is nonws_cl r = head_is nonws_cp (concat r).
+Proof.
+  destruct r as [|d r']; [reflexivity|]. intros H. apply wf_seg_cons in H as (Hne & Hm & _).
+  destruct d as [|x d']; [congruence|]. cbn [head_is concat app]. unfold nonws_cl.
+  destruct Hm as [Hw|[Hw Hn]]; rewrite Hw; cbn [negb].
+  - unfold cl_ws in Hw. cbn [forallb] in Hw. apply andb_true_iff in Hw as [Hx _].
+    unfold nonws_cp. rewrite Hx. reflexivity.
+  - cbn [forallb] in Hn. apply andb_true_iff in Hn as [Hx _]. rewrite Hx. reflexivity.
+Qed.
+
+Lemma words_cl_cp seg : wf_seg seg = true -> map (@concat cp) (words_cl seg) = words (concat seg).
+Proof.
+  induction seg as [|c r IH]; intros H; [reflexivity|].
+  pose proof H as H0. apply wf_seg_cons in H as (Hne & Hm & Hr). specialize (IH Hr).
+  unfold words_cl, words in *. cbn [wordsP concat].
+  destruct Hm as [Hw|[Hw Hn]]; rewrite Hw.
+  - unfold cl_ws in Hw. rewrite (wordsP_app_ws is_ws) by exact Hw. exact IH.
+  - rewrite (wordsP_app_word is_ws) by assumption.
+    change (fun x => negb (cl_ws x)) with nonws_cl. change (fun x => negb (is_ws x)) with nonws_cp.
+    rewrite (head_nonws_concat r Hr). unfold attach. rewrite <- IH.
+    destruct (head_is nonws_cp (concat r)).
+    + destruct (wordsP cl_ws r); cbn [map concat]; [rewrite app_nil_r|]; reflexivity.
+    + cbn [map concat]. rewrite app_nil_r. reflexivity.
+Qed.
+
+Lemma wb_words_cp seg :
+  wf_seg seg = true ->
+  map (fun r => concat (sub seg r)) (word_boundaries seg) = words (concat seg).
+Proof.
+  intros H. rewrite <- (words_cl_cp seg H), <- wb_words_cl, map_map. reflexivity.
+Qed.
+
+Lemma strip_cps_nonws c : forallb nonws_cp c = true -> strip_cps c = c.
+Proof.
+  unfold strip_cps. induction c as [|x c IH]; [reflexivity|]. cbn [forallb filter]. intros H.
+  apply andb_true_iff in H as [H1 H2]. rewrite H1. f_equal. auto.
+Qed.
+
+Lemma remove_spec_seg seg : wf_seg seg = true -> remove seg = strip_cps (concat seg).
+Proof.
+  unfold remove. induction seg as [|c r IH]; intros H; [reflexivity|].
+  apply wf_seg_cons in H as (Hne & Hm & Hr). cbn [filter concat]. rewrite strip_cps_app.
+  unfold nonws_cl at 1. destruct Hm as [Hw|[Hw Hn]]; rewrite Hw; cbn [negb].
+  - rewrite strip_ws_cluster by exact Hw. apply IH. exact Hr.
+  - cbn [concat]. rewrite strip_cps_nonws by exact Hn. f_equal. apply IH. exact Hr.
+Qed.
+
+Lemma remove_spec_cp s : remove (singletons s) = strip_cps s.
+Proof. rewrite remove_spec_seg by apply wf_singletons. rewrite concat_singletons. reflexivity. Qed.
+
+Lemma strip_cl_singletons s : strip_cl (singletons s) = singletons (strip_cps s).
+Proof.
+  unfold strip_cl, strip_cps, singletons. induction s as [|c r IH]; [reflexivity|].
+  cbn [map filter]. unfold nonws_cl at 1, cl_ws, nonws_cp at 1. cbn [forallb]. rewrite andb_true_r.
+  destruct (is_ws c); cbn [negb map]; [exact IH|f_equal; exact IH].
+Qed.
+
+Lemma full_def seg : full seg = join [32] (strip_cl seg).
+Proof. reflexivity. Qed.
+
+Lemma full_spec_cp s : full (singletons s) = join [32] (singletons (strip_cps s)).
+Proof. rewrite full_def, strip_cl_singletons. reflexivity. Qed.
+
+(** the characters [full] separates are whitespace-free and make up [remove] *)
+Lemma strip_cl_concat seg : concat (strip_cl seg) = remove seg.
+Proof. reflexivity. Qed.
+
+(** * J. the executable statement holds of the model's own output *)
+Lemma nlist_eqb_refl l : nlist_eqb l l = true.
+Proof. induction l as [|x l IH]; cbn [nlist_eqb]; [reflexivity|]. rewrite N.eqb_refl. exact IH. Qed.
+Lemma cll_eqb_refl l : cll_eqb l l = true.
+Proof. induction l as [|x l IH]; cbn [cll_eqb]; [reflexivity|]. unfold cl_eqb. rewrite nlist_eqb_refl. exact IH. Qed.
+Lemma clll_eqb_refl l : clll_eqb l l = true.
+Proof. induction l as [|x l IH]; cbn [clll_eqb]; [reflexivity|]. rewrite cll_eqb_refl. exact IH. Qed.
+
+Lemma nlist_eqb_eq a : forall b, nlist_eqb a b = true -> a = b.
+Proof.
+  induction a as [|x a IH]; intros [|y b] H; cbn [nlist_eqb] in H; try discriminate; [reflexivity|].
+  apply andb_true_iff in H as [H1 H2]. apply N.eqb_eq in H1. f_equal; auto.
+Qed.
+
+Lemma v_n_list l : v_list v_n (list_v n_v l) = l.
+Proof.
+  unfold v_list, list_v. rewrite map_map. induction l as [|x l IH]; cbn [map]; [reflexivity|].
+  rewrite IH. unfold v_n, n_v, v_z. rewrite N2Z.id. reflexivity.
+Qed.
+Lemma v_pair_list l : v_list v_pair (list_v pair_nat_v l) = l.
+Proof.
+  unfold v_list, list_v. rewrite map_map. induction l as [|[a b] l IH]; cbn [map]; [reflexivity|].
+  rewrite IH. unfold v_pair, pair_nat_v, v_nat, nat_v, v_z. cbn [v_nth nth fst snd].
+  rewrite !Nat2Z.id. reflexivity.
+Qed.
+
+(** well-formed oracle: in grapheme mode, when the text has no mixed cluster,
+    the third field is a segmentation without mixed clusters of the model's
+    cleaned text (false exactly on the KF1 seam class) *)
+Definition wf_input (v : val) : Prop :=
+  v_bool (v_nth 0 v) = true -> wf_seg (v_clusters (v_nth 1 v)) = true ->
+  concat (v_clusters (v_nth 2 v)) = clean (v_clusters (v_nth 1 v))
+  /\ wf_seg (v_clusters (v_nth 2 v)) = true.
+
+Lemma check_run_l v : wf_input v -> check_C11 v (run_C11 v) = true.
+Proof.
+  intros Hwf. unfold check_C11, run_C11. cbn [v_nth nth].
+  rewrite !v_n_list, v_pair_list.
+  set (seg := in_seg v). set (c := clean seg). set (seg2 := in_seg2 v c).
+  assert (Hsh : forall o, shape5 (L [list_v n_v c; list_v pair_nat_v (word_boundaries seg);
+              list_v n_v (remove seg); list_v n_v (full seg); opt_v (list_v n_v) o]) = true)
+    by (intros [o|]; reflexivity).
+  rewrite Hsh. cbn [andb].
+  destruct (wf_seg seg) eqn:Hs; [|reflexivity].
+  assert (H2 : concat seg2 = c /\ wf_seg seg2 = true).
+  { unfold seg2, in_seg2. unfold seg, in_seg in Hs, c. unfold wf_input in Hwf.
+    destruct (v_bool (v_nth 0 v)).
+    - exact (Hwf eq_refl Hs).
+    - split; [apply concat_singletons|apply wf_singletons]. }
+  destruct H2 as [Hc2 Hw2]. rewrite Hc2, nlist_eqb_refl. cbn [opt_v v_opt]. rewrite v_n_list.
+  assert (Hid : clean seg2 = c) by (apply clean_idem_seg; assumption).
+  rewrite Hid, nlist_eqb_refl.
+  unfold c at 1. rewrite (clean_spec_seg seg Hs), nlist_eqb_refl.
+  unfold c. rewrite (clean_clean_seg seg Hs), clean_nonws_seg, nlist_eqb_refl.
+  rewrite tile_model, wb_words_cl, clll_eqb_refl.
+  rewrite (remove_spec_seg seg Hs), nlist_eqb_refl, full_def, nlist_eqb_refl. reflexivity.
+Qed.
+
+(** ... and conversely a [true] verdict on any output pins that output down *)
+Lemma check_sound_l v out :
+  check_C11 v out = true -> wf_seg (in_seg v) = true ->
+  let seg := in_seg v in
+  let c := v_list v_n (v_nth 0 out) in
+  c = join [32] (words (concat seg)) /\ cleansb c = true /\
+  strip_cps c = strip_cps (concat seg) /\
+  v_opt (v_list v_n) (v_nth 4 out) = Some c /\
+  map (sub seg) (v_list v_pair (v_nth 1 out)) = words_cl seg /\
+  v_list v_n (v_nth 2 out) = strip_cps (concat seg) /\
+  v_list v_n (v_nth 3 out) = join [32] (strip_cl seg).
+Proof.
+  unfold check_C11. intros H Hs. rewrite Hs in H.
+  apply andb_true_iff in H as [_ H].
+  repeat (apply andb_true_iff in H; destruct H as [H ?]).
+  cbv zeta. repeat split.
+  - apply nlist_eqb_eq. assumption.
+  - assumption.
+  - apply nlist_eqb_eq. assumption.
+  - destruct (v_opt (v_list v_n) (v_nth 4 out)) as [c'|]; [|discriminate]. f_equal.
+    apply nlist_eqb_eq. assumption.
+  - apply (tile_sound (in_seg v) _ 0%nat). assumption.
+  - apply nlist_eqb_eq. assumption.
+  - apply nlist_eqb_eq. assumption.
+Qed.
+
+(** * K. Prop-level reading of the executable hypotheses *)
+Definition ValidSeg (seg : list cluster) (s : str) : Prop :=
+  concat seg = s /\ Forall (fun c => c <> []) seg.
+Definition NoMixed (seg : list cluster) : Prop :=
+  Forall (fun c => cl_ws c = true \/ forallb nonws_cp c = true) seg.
+
+Lemma wf_seg_spec seg : wf_seg seg = true <-> Forall (fun c => c <> []) seg /\ NoMixed seg.
+Proof.
+  unfold wf_seg, NoMixed. rewrite forallb_forall, !Forall_forall. split.
+  - intros H. split; intros c Hc; specialize (H c Hc); apply andb_true_iff in H as [H1 H2].
+    + destruct c; [discriminate|discriminate].
+    + unfold nomixed_cl in H2. apply orb_true_iff in H2. exact H2.
+  - intros [H1 H2] c Hc. apply andb_true_iff. split.
+    + specialize (H1 c Hc). destruct c; [congruence|reflexivity].
+    + unfold nomixed_cl. apply orb_true_iff. exact (H2 c Hc).
+Qed.
+
+(** a whitespace-clean string is exactly a list of words joined by single spaces *)
+Lemma scs_join_words s :
+  scs s = true ->
+  match words s with
+  | [] => []
+  | _ :: _ => (if head_is is_ws s then [32] else []) ++ join [32] (words s)
+  end = s.
+Proof.
+  induction s as [|c r IH]; intros Hs; [reflexivity|]. cbn [scs] in Hs.
+  apply andb_true_iff in Hs as [Hc Hr]. specialize (IH Hr).
+  unfold words in *. cbn [wordsP head_is]. destruct (is_ws c) eqn:Ec.
+  - apply andb_true_iff in Hc as [H32 Hn]. apply N.eqb_eq in H32. subst c.
+    pose proof (wordsP_head_nonempty is_ws r Hn) as Hne.
+    rewrite (head_ws_nonws r Hn) in IH.
+    destruct (wordsP is_ws r); [congruence|]. cbn [app] in *. rewrite IH. reflexivity.
+  - pose proof (join_attach c r) as J. unfold words, nonws_cp in J.
+    destruct (attach c _ (wordsP is_ws r)) eqn:Ea.
+    + exfalso. unfold attach in Ea. destruct (head_is _ r); [destruct (wordsP is_ws r)|]; discriminate.
+    + cbn [app]. rewrite J. f_equal. exact IH.
+Qed.
+
+Lemma cleansb_iff s : cleansb s = true <-> s = join [32] (words s).
+Proof.
+  split.
+  - unfold cleansb. intros H. apply andb_true_iff in H as [Hh Hs]. apply negb_true_iff in Hh.
+    pose proof (scs_join_words s Hs) as J. rewrite Hh in J.
+    destruct (words s) eqn:E; [rewrite <- J; reflexivity|]. cbn [app] in J. symmetry. exact J.
+  - intros ->. apply cleansb_join, words_ok.
+Qed.
+
+(** [clean] fixes exactly the whitespace-clean strings (code-point mode) *)
+Lemma clean_fix_iff s : clean (singletons s) = s <-> cleansb s = true.
+Proof. rewrite clean_spec_cp, cleansb_iff. split; intros H; symmetry; exact H. Qed.
